@@ -19,7 +19,7 @@ for name, rs in rows:
         else: cells.append(f"{pid}: inconclusive (exit {rc})")
     out.append(f"| `{name}` | " + "; ".join(cells) + " |")
 out.append("")
-out.append("### (b) Changes written by sub-agents (160: round 1 = -A/-B, round 2 = -C/-D, round 3 = -E/-F, round 4 = -G/-H; eight per property)\n")
+out.append("### (b) Changes written by sub-agents (200: round 1 = -A/-B, round 2 = -C/-D, round 3 = -E/-F, round 4 = -G/-H, round 5 = -I/-J; ten per property)\n")
 out.append("| id | change (site) | needs to manifest | caught by quick checks | run but silent |")
 out.append("|---|---|---|---|---|")
 for d in sorted(glob.glob('/verif/seeded/C*-*')):
